@@ -148,6 +148,16 @@ def run_property(pid, tier, seed, jobs=None, write_baseline=False, only_units=No
     verdict = {}
     for o in obls:
         verdict[o["name"]] = _worst(verdict.get(o["name"], "proved"), o["status"])
+    # property-level composition lemmas (registry.LEMMAS): discharged iff every composed obligation is present and proved
+    import fnmatch
+    for lem in ([] if only_units else registry.LEMMAS.get(pid, [])):
+        missing_ = [pat for pat in lem["requires"]
+                    if not any(fnmatch.fnmatchcase(n_, pat) and v_ == "proved" for n_, v_ in verdict.items())]
+        st = "proved" if not missing_ else "unknown"
+        lo = dict(name=f"lemma/{lem['name']}", path="", status=st, backend="compose", seconds=0.0, kind="lemma", witness=None, unit="lemma",
+                  detail=lem["text"] + ("" if not missing_ else "  — NOT composed, missing or unproved: " + "; ".join(missing_[:6])))
+        obls.append(lo)
+        verdict[lo["name"]] = st
     names = sorted(verdict)
 
     base_all = _load(BASELINE, {})
@@ -172,6 +182,10 @@ def run_property(pid, tier, seed, jobs=None, write_baseline=False, only_units=No
     seen_fn = {}
     for o in bad:
         nm = o["name"]
+        if o.get("backend") == "compose":
+            # a composition lemma never fails on its own: one of the obligations it composes did, and that one is reported
+            undecided.append(o)
+            continue
         if o["status"] == "unknown" and nm not in base and not only_units:
             undecided.append(o)
             continue
